@@ -141,6 +141,9 @@ def make_resolver(ctx, unit, ops, skip=(), coroutines=False):
             for kw in call.keywords:
                 if kw.arg:
                     bound[kw.arg] = ev.eval(kw.value, env)
+            if f[0] == "@exact" and target.parent is not None and not isinstance(target.node, ast.Lambda):
+                # a closure: it sees the locals of the function it is defined in (those its parameters do not shadow)
+                bound = {**{k: v for k, v in env.items() if not k.startswith("@") and k not in names}, **bound}
             return cfg_of(target), bound
         return None
 
@@ -286,6 +289,20 @@ def uncast_deep(e):
     if e is None:
         return None
     return _CastStripper().visit(copy.deepcopy(e))
+
+
+def present_units(ctx, shorts):
+    """The unit list of a rule, minus private helpers (``module._name``) that no longer exist under their name and are not
+    found again structurally: a helper that was folded into something else is no reason to stop looking at the rest (the
+    public tools are anchors and must exist)."""
+    out = []
+    for short in shorts:
+        last = short.rsplit(".", 1)[-1]
+        if last.startswith("_") and not last.startswith("__") and not ctx.pkg.has_unit(short):
+            ctx.note(f"the private helper {short} does not exist as a function of its own any more; it is not looked at separately")
+            continue
+        out.append(short)
+    return out
 
 
 class Relabel:
